@@ -1,7 +1,7 @@
 """C07 - a transfer stores the dataset once, byte-identical, and announces it once."""
 from checks._simple import run_simple
 
-PROVED_TARGETS = ["cascade.executor.data_server:DataServer.store_payload", "cascade.executor.data_server:DataServer.send_payload"]
+PROVED_TARGETS = ["cascade.executor.data_server:DataServer.store_payload", "cascade.executor.data_server:DataServer.send_payload", "cascade.executor.data_server:DataServer.maybe_clean"]
 
 
 def run(tier, seed):
